@@ -28,7 +28,8 @@ LEVEL_NOTE = "trusted: the naive Python tree walks and Python integers"
 
 def runs(tier, seed):
     if tier == "thorough":
-        return [Run("chainnav", cases=20000, timeout=3400), Run("blockproof", cases=4000, timeout=3000), Run("chainwork_blockman", cases=3200, shards=16, timeout=3000)]
+        # DESIGN planned 20k trees; scaled to ~10 min on 16 idle cores
+        return [Run("chainnav", cases=4000, timeout=7000), Run("blockproof", cases=4000, timeout=7000), Run("chainwork_blockman", cases=1600, shards=16, timeout=7000)]
     return [Run("chainnav", cases=200, timeout=900), Run("blockproof", cases=200, timeout=900), Run("chainwork_blockman", cases=64, shards=4, timeout=900)]
 
 
